@@ -538,7 +538,9 @@ func (fc *funcContext) translateExpr(expr ast.Expr) *expression {
 				fc.zeroValue(t.Elem()),
 			)
 		case *types.Basic:
-			return fc.formatExpr("%e.charCodeAt(%f)", e.X, e.Index)
+			// The string length isn't known at compile time, so even a constant
+			// index has to be checked at run time.
+			return fc.formatExpr(rangeCheck("%1e.charCodeAt(%2f)", false, true), e.X, e.Index)
 		case *types.Signature:
 			switch u := e.X.(type) {
 			case *ast.Ident:
